@@ -19,7 +19,7 @@ PROP_ORACLES = {
     'C09': ['tree.overlay', 'union.overlay', 'overlay'],
     'C10': ['overlay', 'union.overlay'],
     'C11': ['composite.memory', 'composite.altroot', 'composite.physical', 'transfer', 'copydir'],
-    'C12': ['paths', 'tree.memory', 'tree.altroot', 'walk.vanish'],
+    'C12': ['paths', 'tree.memory', 'tree.altroot', 'walk.vanish', 'faults'],
     'C13': ['paths', 'reader', 'writer', 'tree.memory', 'tree.altroot', 'tree.overlay', 'tree.physical', 'union.overlay', 'overlay', 'transfer', 'handles', 'hostile.physical', 'times', 'embedded', 'adiff:hostile', 'adiff:reader', 'adiff:schedule', 'adiff:steps.memory'],
     'C14': ['reader', 'writer'],
     'C15': ['adiff:steps.memory', 'adiff:steps.altroot', 'adiff:steps.overlay', 'adiff:steps.physical', 'adiff:reader', 'adiff:schedule', 'adiff:hostile', 'adiff:transfer'],
